@@ -6,15 +6,15 @@ CONSTANTS
   TDiscWait = 5
   TDiscResp = 10
   TCall = 10
-  Configs <- ConnectConfigs
-  MaxEnv = 7
-  MaxFaults = 2
-  Msgs <- ConnectMsgs
+  Configs <- CallConfigsNoHist
+  MaxEnv = 4
+  MaxFaults = 1
+  Msgs <- CallMsgsBig
   MaxChunk = 2
-  UseCalls = FALSE
+  UseCalls = TRUE
   UseSubs = FALSE
   GenMode = FALSE
-  StartConnected = FALSE
+  StartConnected = TRUE
   Grid = 0
   TrackKA = FALSE
   SubKinds = {"A"}
@@ -22,15 +22,12 @@ SPECIFICATION MCSpec
 VIEW mcview
 CONSTRAINT Horizon
 INVARIANT ConnectedFlag
-INVARIANT SessionOnlyIfCompatible
-INVARIANT FailedConnectClosedNoStop
-INVARIANT StopAtMostOnce
-INVARIANT StopOnlyIfConnected
-INVARIANT StopWhenClosedAfterConnected
+INVARIANT CallLeavesNothing
+INVARIANT CallTimeoutExact
 INVARIANT Released
 INVARIANT ReleasedAtRest
 INVARIANT ClassifiedErrors
-PROPERTY ForwardOnly
+INVARIANT StopAtMostOnce
 PROPERTY ClosedFinal
 PROPERTY Silent
 CHECK_DEADLOCK FALSE
